@@ -120,7 +120,7 @@ const verifC24Quoted = " !#[]~"           // printable except '"' (0x22) and '\\
 // undone, URI is URL-decoded, and the default identity is the selected
 // element's subject CN.
 //
-//verif:bound header = [By=<b>;]Hash=<h>;Subject="CN=<q>[,O=<o>]";URI=<u>[,Hash=<h2>;Subject="CN=<q2>"] with h,h2 of 1..2 plain characters, q,q2 of 1..3 (quick 1..2) printable characters other than '"' '\' ',' (DN-level commas are covered separately by an escaped '\,' variant), o of 1 plain char, u one of {plain, %2C-escaped, %3B-escaped}; SelectElement first/last
+//verif:bound header = [By=<b>;]Hash=<h>;Subject="CN=<q>[,O=<o>]";URI=<u>[,Hash=<h2>;Subject="CN=<q2>"] with h,h2 of 1..2 plain characters, q,q2 of 1..3 (quick 1..2) printable characters other than '"' '\' ',' (DN-level commas are covered separately by an escaped '\,' variant), o of 1 plain char, u one of {plain, %2C-escaped, %3B-escaped, quoted with %5C, unquoted %22-wrapped, quoted with an escaped quote and %2C}; SelectElement first/last
 func verifH_C24_xfcc_structured() {
 	qmax := 2
 	if verifTier() == 1 {
@@ -149,13 +149,22 @@ func verifH_C24_xfcc_structured() {
 		rawSubj += ",O=o"
 	}
 	var u, wantU string
-	switch verifChoice("uri", 3) {
+	switch verifChoice("uri", 6) {
 	case 0:
 		u, wantU = "spiffe://a/b", "spiffe://a/b"
 	case 1:
 		u, wantU = "a%2Cb", "a,b"
-	default:
+	case 2:
 		u, wantU = "a%3Bb", "a;b"
+	case 3:
+		// percent-encoded backslash inside a quoted value: quoting is undone first, then the URL escape
+		u, wantU = "\"urn%3Awin%3AC%5Ca\"", "urn:win:C\\a"
+	case 4:
+		// percent-encoded quotes in an unquoted value are data, not quoting
+		u, wantU = "%22a%22", "\"a\""
+	default:
+		// a quoted value with an escaped quote and an encoded comma
+		u, wantU = "\"a\\\"b%2Cc\"", "a\"b,c"
 	}
 	hdr := "Hash=" + h1 + ";Subject=\"" + rawSubj + "\";URI=" + u
 	if verifNondetBool("with_by") {
